@@ -32,13 +32,22 @@ def parseIdents (s : String) : Option (List Ident) :=
   if s = "-" then some [] else (s.splitOn ",").mapM parseIdent
 
 /-- `r<hex>` = `NewPeerSetID(data)`; `c<service>/<hex>` = `Context.NewPeerSetID(data)` of that
-service (the service number stands for its 16-byte id) -/
+service (the service number stands for its 16-byte id); `x<service>/<hex>` = `NewPeerSetID(data)`, used through
+that service's `Context` -/
 def parseSetId (s : String) : Option SetId :=
   if s.startsWith "r" then (Util.unhex (s.drop 1).toString).map newPeerSetID
   else if s.startsWith "c" then
     match (s.drop 1).toString.splitOn "/" with
     | [svc, d] => match svc.toNat?, Util.unhex d with
       | some svc, some d => some (ctxPeerSetID (List.replicate 16 (svc + 1000)) d)
+      | _, _ => none
+    | _ => none
+  else if s.startsWith "x" then
+    -- `Context.SetValidPeers / GetValidPeers` of service `svc` with an identifier made by `network.NewPeerSetID`:
+    -- the wrappers (context.go:311-326) hand the identifier on as it is, so this is the set `r<hex>`
+    match (s.drop 1).toString.splitOn "/" with
+    | [svc, d] => match svc.toNat?, Util.unhex d with
+      | some _, some d => some (newPeerSetID d)
       | _, _ => none
     | _ => none
   else none
